@@ -422,7 +422,7 @@ pub fn run(tier: Tier) -> CheckResult {
     res.coverage.set("outputs_not_parsable_here", unparsable_out);
     res.coverage.set("exhaustive", exhaustive);
     res.coverage.set("samples", json!(cases.iter().step_by((cases.len() / 5).max(1)).take(5).collect::<Vec<_>>()));
-    res.coverage.set("rule", "same-named command functions in two files of different directories (two annotated functions: two wrappers invoking that name) alone and beside everything else; projects: 1..4 source files at directory depths 0..3 (plus every file count from 5 to 40 / 96 with one command per file), each holding a subset of the 14-item menu - one file: every subset of up to 4 (thorough: 5) items at every directory position; two files: every pair of subsets of up to 2 items; three files: every triple of single items; four files (thorough): every quadruple over a 6-item menu - (7 command spellings: tauri::command / command / with arguments, visibility, async, attribute order, doc comments, generics; 7 decoys: other::command, impl method, nested mod, helper fn, cfg_attr, const+macro text, look-alike paths), crossed with decoy trees (target/, .git/, non-.rs files, an unparsable .rs: three of the 16 combinations per layout in quick, all 16 in thorough); ground truth = the generator's own list of annotated top-level fns; oracle: the set of invoke() literals in the parsed commands.ts equals it, one exported function per command, each returning a Promise; adding the unparsable file changes nothing else (differential run). Non-trivial = at least one item present and the project accepted.");
+    res.coverage.set("rule", "[round 7: a channel-only command in the item menu (15 items); the project directory itself called apps/target, apps/.git, target, .git/target] same-named command functions in two files of different directories (two annotated functions: two wrappers invoking that name) alone and beside everything else; projects: 1..4 source files at directory depths 0..3 (plus every file count from 5 to 40 / 96 with one command per file), each holding a subset of the 14-item menu - one file: every subset of up to 4 (thorough: 5) items at every directory position; two files: every pair of subsets of up to 2 items; three files: every triple of single items; four files (thorough): every quadruple over a 6-item menu - (7 command spellings: tauri::command / command / with arguments, visibility, async, attribute order, doc comments, generics; 7 decoys: other::command, impl method, nested mod, helper fn, cfg_attr, const+macro text, look-alike paths), crossed with decoy trees (target/, .git/, non-.rs files, an unparsable .rs: three of the 16 combinations per layout in quick, all 16 in thorough); ground truth = the generator's own list of annotated top-level fns; oracle: the set of invoke() literals in the parsed commands.ts equals it, one exported function per command, each returning a Promise; adding the unparsable file changes nothing else (differential run). Non-trivial = at least one item present and the project accepted.");
     res.assumptions = vec!["return and parameter types are restricted to atoms that pass C05".into()];
     res
 }
